@@ -1,7 +1,7 @@
 """C07 driver: chord recognition."""
 import re
 from mingus.core import chords, intervals
-from .common import spoil, AGAIN, call, nm, txt, names, Shape
+from .common import err_name, spoil, AGAIN, call, nm, txt, names, Shape
 
 _ROOT = re.compile(r"^([A-G][#b]*)(.*)$", re.S)
 
@@ -71,14 +71,14 @@ def both(chord, shared=False, edited=False, **kw):
             raise Shape("list expected")
         out["short"] = [short_entry(x) for x in s]
     except Exception as e:
-        out["sok"], out["serr"] = False, type(e).__name__
+        out["sok"], out["serr"] = False, err_name(e)
     try:
         g = chords.determine(_list(chord), False, **kw)
         if not isinstance(g, list):
             raise Shape("list expected")
         out["long"] = [long_entry(x) for x in g]
     except Exception as e:
-        out["lok"], out["lerr"] = False, type(e).__name__
+        out["lok"], out["lerr"] = False, err_name(e)
     return out
 
 
